@@ -242,7 +242,17 @@ fn main() {
             });
         }
     }
-    let planned_inputs: usize = jobs.iter().map(|j| j.inputs.len()).sum();
+    // the same (entry, input) run under several configurations (max_bit_len, range-check columns)
+    // is ONE distinct case of the report: the floor is half of the distinct planned pairs
+    let planned_inputs: usize = {
+        let mut seen: std::collections::HashSet<(String, String)> = std::collections::HashSet::new();
+        for j in &jobs {
+            for x in &j.inputs {
+                seen.insert((j.entry.name(), format!("{x:?}")));
+            }
+        }
+        seen.len()
+    };
     let restricted = std::env::var("MZV_C04_ONLY").is_ok();
     if replay.is_none() && !restricted {
         rep.min_nontrivial = (planned_inputs / 2) as u64;
